@@ -133,13 +133,18 @@ check('C01', 'exploration',
       'DESIGN.md 4/C01')
 
 check('C06', 'exploration',
-      'For every application generated from SpyneSignatures (two namespaces, inheritance across namespaces, attributes, wrapped '
-      'and unwrapped arrays, bare styles, SOAP headers) the schemas served in ?wsdl are extracted and compiled by lxml; every '
-      'response Spyne emits for a conformant value, every request the loopback Spyne client writes and every request the '
-      'spec-conformant encoder writes is validated against them. For every SpyneValidate case (facet x probe, Valid computed by '
-      'TLC) x position x {XmlDocument, Soap11, Soap12} the verdict of validator=lxml is compared by TLC with Valid and with the '
-      'soft verdict (SchemaAgrees).',
-      'TLA+ facet/verdict table (TLC) + XML Schema processor as second judge of every emitted document',
+      'SpyneSchema.tla models Interface.add_class as a walk with an explicit stack over every universe of three classes in three '
+      'namespaces related by member / array / inheritance / choice links plus a service (6480 universes, 251829 states): TLC proves that '
+      'the walk ends with every namespace importing what it refers to (Closed) and equals the closed forms Imports / Types / Namespaces; '
+      'a named deviation (SkipRegistered) shows Closed is not vacuous. A real application is built for every universe: its ?wsdl schemas '
+      'are described (documents, imports, declared types, namespaces referred to) and judged by TLC (TraceSchema: OneDocPerNs, '
+      'ImportsSuffice, Closed, TypesDeclared), compiled by lxml, and Spyne\'s response, the Spyne client\'s request and the '
+      'spec-conformant request are validated against them (also under validator=lxml). The same for every SpyneSignatures application. '
+      'Every SpyneValidate case with Valid = TRUE plus OutCases (binary members under each declared encoding, decimals and doubles of '
+      'extreme magnitude) is RETURNED by a service at every position and the response validated against the published schema '
+      '(EmittedOk). For every SpyneValidate case x position x {XmlDocument, Soap11, Soap12} TLC compares the verdict of validator=lxml '
+      'with Valid (SchemaAgrees) and with the soft verdict (ValidatorsAgree).',
+      'TLA+ model of interface assembly (TLC, exhaustive) + trace validation of real schemas against its closed forms + XML Schema processor as judge of every emitted document',
       'DESIGN.md 4/C06')
 
 PENDING = ['C02', 'C03', 'C04', 'C07', 'C16', 'C17']
